@@ -309,10 +309,51 @@ def connset_sequences(tag, sim, small, maxsteps, M, NR, num=0, workers=4, timeou
     return out, states, n
 
 
+def connset_impl(tier):
+    """Design layer of C11 (ConnSetImpl.tla / ConnSetImplCheck.tla): ConnectionSet / PortSet as the code represents and updates them.
+    Breadth-first over every representation reachable from empty registers (closed space, no depth bound): every operation refines
+    ConnSetModel!Apply, every observer agrees with the denotation, the representation invariant holds. Every ingredient of the design
+    (constants of ConnSetImpl.tla) must be necessary: dropping it must be refuted by TLC."""
+    inv = 'INVARIANT RepOK\nINVARIANT StepRefines\nINVARIANT ObserversOK'
+    one = dict(m1.CONNSET_ASBUILT, M=3, NR=1, UseProtos='{"TCP", "UDP", "SCTP"}', UseNames='{"http", "dns"}')
+    two = dict(m1.CONNSET_ASBUILT, M=2, NR=2, UseProtos='{"TCP", "UDP"}', UseNames='{"http"}')
+    runs = [('one', one), ('two', two)]
+    if tier == 'thorough':
+        runs.append(('two3', dict(two, UseProtos='{"TCP", "UDP", "SCTP"}')))      # 1.7 M representations pairs, about 9 min on 16 cores
+    states = 0
+    for tag, consts in runs:
+        cfg = m1.write_cfg('ConnSetImplCheck_%s.cfg' % tag, consts, extra=inv)
+        text, gen, dist, rc = vlib.tlc('ConnSetImplCheck', cfg, timeout=3000, tag='csi' + tag)
+        if 'is violated' in text:
+            raise Infra('ConnSetImpl.tla (as built, %s): the design does not refine ConnSetModel (specification-level finding, not a verdict about the code):\n' % tag
+                        + vlib.tlc_error_context(text))
+        if rc != 0 or vlib.has_tlc_error(text) or 'No error has been found' not in text:
+            raise Infra('ConnSetImplCheck.tla run failed:\n' + vlib.tlc_error_context(text))
+        states += dist
+    refuted = []
+    for flag in sorted(m1.CONNSET_ASBUILT):
+        ok = False
+        for tag, consts in (('one', one), ('two', two)):
+            cfg = m1.write_cfg('ConnSetImplCheck_no%s_%s.cfg' % (flag, tag), dict(consts, **{flag: 'FALSE'}), extra=inv)
+            text, gen, dist, rc = vlib.tlc('ConnSetImplCheck', cfg, timeout=900, tag='csim%s%s' % (flag, tag))
+            if ' is violated' in text:
+                ok = True
+                break
+        if not ok:
+            raise Infra('ConnSetImpl.tla: dropping %s is not refuted -- the invariants would be vacuous:\n%s' % (flag, vlib.tlc_error_context(text)))
+        refuted.append(flag + '=FALSE')
+    return dict(connset_design_layer='ConnSetImpl.tla: AllowAll + AllowedProtocols map of PortSet{Ports, NamedPorts, ExcludedNamedPorts} updated as connectionset.go / portset.go do; '
+                                     'for EVERY representation reachable from empty registers (1 register: 3 port chunks, 3 protocols, 2 names, every range; 2 registers: 2 chunks, '
+                                     '%s, 1 name) every method refines ConnSetModel!Apply, IsEmpty / IsAllConnections / Equal / ContainedIn / Contains agree with the '
+                                     'denotation and the representation invariant holds' % ('3 protocols' if tier == 'thorough' else '2 protocols in AddConnection'),
+                connset_design_distinct_states=states, connset_design_exhaustive=True, connset_design_refuted_variants=refuted)
+
+
 @check('C11')
 def c11(tier):
     t0 = time.time()
     vlib.build_harness()
+    design_cov = connset_impl(tier)
     runs = []  # (shards, M, NR)
     states = 0
     nseq = collections.Counter()
@@ -334,14 +375,16 @@ def c11(tier):
     nseq['random_sequences_M9'] = nrand
     mism = []
     chunked = []
+    drift = []
     lines = tstates = 0
     for shards, M, NR in runs:
-        cfg = 'ConnSetTrace_M%d_NR%d.cfg' % (M, NR)
-        with open(os.path.join(vlib._specdir(), cfg), 'w') as f:
-            f.write('CONSTANTS\n  M = %d\n  NR = %d\nSPECIFICATION TSpec\nPOSTCONDITION TraceAccepted\nCHECK_DEADLOCK FALSE\n' % (M, NR))
+        cfg = m1.connset_trace_cfg(M, NR)
         res = vlib.validate_traces('ConnSetTrace', shards, cfg=cfg)
         mism += res['mismatches']; lines += res['lines']; tstates += res['states']
         chunked.append((res['shards'], M, NR))
+        for sh in res['shards']:
+            if os.path.exists(sh + '.tlcout'):
+                drift += vlib.parse_printed_json(open(sh + '.tlcout', errors='replace').read(), 'DRIFT')
     ops = collections.Counter()
     steps = 0
     named_steps = 0
@@ -379,7 +422,13 @@ def c11(tier):
     rc = v.finish()
     if steps == 0 or named_steps == 0:
         raise Infra('vacuous run')
-    cov = dict(states=states + tstates, transitions=steps, traces_validated_against_impl=sum(nseq.values()), samples=[sample],
+    if drift:
+        # not a verdict about the property: the code no longer follows the design layer step by step (its denotations were checked above)
+        print('DESIGN-DRIFT: %d recorded step(s) leave a representation ConnSetImpl.tla does not predict (first: %s); the design-level '
+              'proof no longer covers this code - update ConnSetImpl.tla' % (len(drift), vlib.short(drift[0], 500)))
+    design_cov['connset_steps_following_design'] = steps - len(set((x['wid'], x['line']) for x in drift))
+    design_cov['connset_steps_drifting_from_design'] = len(set((x['wid'], x['line']) for x in drift))
+    cov = dict(design_cov, states=states + tstates + design_cov['connset_design_distinct_states'], transitions=steps, traces_validated_against_impl=sum(nseq.values()), samples=[sample],
                evaluations=sum(nseq.values()), distinct_nontrivial=sum(nseq.values()),
                rule='one case = one operation sequence on real common.ConnectionSet objects (3 or 2 registers); after every step all registers, all pairwise Equal/ContainedIn, '
                     'IsEmpty/IsAllConnections/Contains/String and pointer sharing are recorded and validated by TLC; exhaustive: ALL sequences of %d operations over the reduced '
@@ -389,7 +438,9 @@ def c11(tier):
     vlib.write_evidence('C11', tier, 'model_checking', cov,
                         ['TLC + Json module trusted', 'ConnSetModel.tla: numeric points exact; named ports are atoms for Union/Subtract/Copy/IsEmpty/printing; a name is covered by a set holding it or a full range; '
                          'name part of Intersection unspecified; Equal complete / full-set recognition demanded only for sets without named-port bookkeeping',
-                         'port chunk abstraction: every reported boundary must be a chunk boundary'], time.time() - t0, len(v.violations))
+                         'port chunk abstraction: every reported boundary must be a chunk boundary',
+                         'ConnSetImpl.tla abstracts interval.CanonicalSet to the set it denotes and does not model pointer sharing (both are checked on the real objects by the trace specification)'],
+                        time.time() - t0, len(v.violations))
     print('C11 %s: %d sequences, %d steps (%d with named ports), %d violation(s), %.0fs' % (tier, sum(nseq.values()), steps, named_steps, len(v.violations), time.time() - t0))
     return rc
 
